@@ -105,6 +105,16 @@ def one_program(ctx, script, rng, settings_list):
         ctx.count('program_rejected')
         return
     n_eq = sum(1 for s in symbols if s.equation is not None and s.code is not None and s.type.name in ('ENDOGENOUS', 'VERBATIM'))
+    _build_and_compare(ctx, script, symbols, n_eq, rng, settings_list, case)
+    # the same symbols in another order (symbol lists may be concatenated or hand-ordered): verbatim symbols first, rest reversed
+    reordered = [s for s in symbols if s.type.name == 'VERBATIM'] + [s for s in reversed(symbols) if s.type.name != 'VERBATIM']
+    if n_eq > 1 and reordered != symbols:
+        ctx.count('reordered_symbol_lists')
+        _build_and_compare(ctx, script, reordered, n_eq, rng, settings_list[:1], dict(case, symbol_order='verbatim-first-rest-reversed'))
+
+
+def _build_and_compare(ctx, script, symbols, n_eq, rng, settings_list, case):
+    import fsic
     for kw in settings_list:
         for conv_name, conv in CONVERTERS.items():
             calls = []
@@ -114,7 +124,7 @@ def one_program(ctx, script, rng, settings_list):
                 calls.append((s, out))
                 return out
             c2 = dict(case, settings=kw, converter=conv_name)
-            ctx.evaluation((script, kw, conv_name), nontrivial=n_eq > 0, sample=c2)
+            ctx.evaluation((script, kw, conv_name, case.get('symbol_order')), nontrivial=n_eq > 0, sample=c2)
             variants = {}
             texts = {}
             try:
